@@ -52,6 +52,7 @@ from ..lib_C14 import (BASIN_TYPES, CORE, DCORBASE, FB, FDICT, H5BASE,
                        run_straight, single_assign, stmt_of, basin_loop,
                        class_constants, expand_partials,
                        inline_module_helpers, interpret, method_mro,
+                       ifexp_to_if,
                        module_functions)
 
 ASSUMPTIONS = [
@@ -2141,6 +2142,7 @@ def _function_is_impure(repo, rel, fn, seen=None):
 def _probe_rows(what, fd, call):
     """the values the probe function `fd` can hand to `call`, each with the
     answer "the object is available": -> [(value, available)]"""
+    fd = ifexp_to_if(fd)
     a = fd.args
     params = [x.arg for x in a.args]
     env = {}
@@ -2183,8 +2185,8 @@ def _probe_rows(what, fd, call):
         return None
     shapes = [fields(r.value) for r in rets]
     if all(s is None for s in shapes):
-        if any(isinstance(r.value, (ast.Tuple, ast.Call, ast.Dict, ast.List))
-               for r in rets):
+        if any(isinstance(r.value, (ast.Tuple, ast.Call, ast.Dict, ast.List,
+                                    ast.IfExp)) for r in rets):
             raise AnalysisError(f"{what}: results of {fd.name} not "
                                 f"recognised")
         return [(True, True), (False, False)]
@@ -2449,7 +2451,9 @@ def r144_verdict(ctx, repo):
                     continue
                 if isinstance(ch, ast.ExceptHandler):
                     for s in ch.body:
-                        free_names(s, out)
+                        if not isinstance(s, ast.Expr):
+                            free_names(ast.Module(body=[s],
+                                                  type_ignores=[]), out)
                     continue
                 if isinstance(ch, ast.Expr) or (isinstance(
                         ch, ast.withitem)):
